@@ -131,9 +131,22 @@ def protocol_probes(acc, d, driver, seed):
         acc.count("methods_enumerated", len(methods))
         for mname in methods:
             acc.seen("methods", mname)
-        for gname in ("/", "g", "g/sub"):
-            grp = mc if gname == "/" else mc[gname]
-            for path in RESERVED:
+        def handle(gname):
+            """Group handles: plain, and restricted ones (restrictions add refusals, they never open the reserved namespace)."""
+            if gname == "/":
+                return mc
+            if "|" not in gname:
+                return mc[gname]
+            path, flag = gname.split("|")
+            return mc[path].restrict(**{flag: True})  # (mc["/"] is a fresh wrapper of the root group: restrict() works in place)
+        for gname in ("/", "g", "g/sub", "g|local_only", "/|skel_only", "g|read_only", "g|local_only>sub"):
+            if ">" in gname:
+                grp = handle(gname.split(">")[0])[gname.split(">")[1]]  # child reached from a restricted handle
+            else:
+                grp = handle(gname)
+            acc.count("probe_handles." + (gname.split("|")[1] if "|" in gname else "plain"))
+            paths = RESERVED if "|" not in gname else [p_ for p_ in RESERVED if isinstance(p_, str) and not p_.startswith("/")][::2] + RESERVED[1:2]
+            for path in paths:
                 for mname in methods:
                     fn = getattr(type(grp), mname, None)
                     if fn is None:
@@ -159,7 +172,7 @@ def protocol_probes(acc, d, driver, seed):
                                           {"kind": "probe", "driver": driver, "group": gname, "method": mname, "path": repr(path) if isinstance(path, bytes) else path})
                             sub.close(); gc.collect()
                             sub = setup(acc.newdir("c8r"), driver); mc = sub.mc
-                            grp = mc if gname == "/" else mc[gname]
+                            grp = handle(gname.split(">")[0])[gname.split(">")[1]] if ">" in gname else handle(gname)
                         elif not rejected:
                             acc.violation(f"reserved-path-accepted:{mname}", f"{mname}{tuple(desc[3])} {kw} at {gname} returned {returned!r} instead of being rejected",
                                           {"kind": "probe", "driver": driver, "group": gname, "method": mname, "path": repr(path) if isinstance(path, bytes) else path})
